@@ -79,12 +79,6 @@ def cls (keys : List SortKey) (rows : List WRow) : String :=
   else if bigIntWithFloat keys rows then "int64_beyond_2p53_with_float64"
   else "unclassified"
 
-def wantLen (n : Nat) (limit offset : Option Nat) : Nat :=
-  let off := offset.getD 0
-  match limit with
-  | some l => min l (n - off)
-  | none => n - off
-
 /-- Spec verdict on the implementation's output for answer `a`. -/
 def specVerdict (keys : List SortKey) (a : List WRow) (limit offset : Option Nat) (impl : String) : String :=
   if impl == "panic" then specFail (cls keys a) "sorting-failed(panic)"
